@@ -66,6 +66,11 @@ class C27(Scenario):
         return {"nodes": [{"salt": rng.choice(SALTS)}], "units": units, "range": [lo, hi], "observe_only": arm == "untorn-off"}
 
     def expand(self, plan):
+        """Objects are first observed *cold* (nothing that fills a lazy cache of the object
+        itself), so that algorithms also meet inputs whose caches were never filled; the
+        inputs of every algorithm op are re-observed cold right after it; full snapshots
+        (cached accessors, cross-checked against from-scratch values) are taken every
+        SWEEP_EVERY algorithm ops and at the end."""
         steps, uos = [], []
         lo, hi = plan["range"]
         nalg = 0
@@ -73,13 +78,13 @@ class C27(Scenario):
         for ui, u in enumerate(plan["units"]):
             if u["k"] == "alg" and not seen_setup_end:
                 seen_setup_end = True
-                steps.append([0, ["snapall", None, lo, hi]])
+                steps.append([0, ["snapall", None, lo, hi, True]])
                 uos.append(ui)
             steps.append([0, u["op"]])
             uos.append(ui)
             if u["k"] == "alg":
                 nalg += 1
-                steps.append([0, ["snap", None, u["inputs"]]])
+                steps.append([0, ["snap", None, u["inputs"], True]])
                 uos.append(ui)
                 if nalg % SWEEP_EVERY == 0:
                     steps.append([0, ["snapall", None, lo, hi]])
@@ -119,16 +124,36 @@ class C27(Scenario):
                 if not isinstance(snaps, dict):
                     continue
                 for slot, snap in snaps.items():
+                    cc = snap.get("cachecheck")
+                    if cc not in (None, "ok") and ("cc", slot) not in reported:
+                        reported.add(("cc", slot))
+                        v = {
+                            "clause": "M3-cached-accessor-disagrees-with-integrals",
+                            "unit": ui,
+                            "fingerprint": cc,
+                            "detail": {"slot": int(slot), "fields": cc, "after_op": last_alg},
+                        }
+                        if torn:
+                            v["beyond"] = True
+                            v["clause"] = "beyond:" + v["clause"]
+                        viols.append(v)
                     if slot not in model:
-                        model[slot] = snap
+                        model[slot] = dict(snap)
                         probes["objects_tracked"] += 1
                         if "items" in snap:
                             probes["metadata_dicts_tracked"] += 1
                         continue
                     probes["snapshots_compared"] += 1
-                    if snap != model[slot] and slot not in reported:
+                    if snap.get("cyclic") or model[slot].get("cyclic"):
+                        common = set(snap) | set(model[slot])
+                    else:
+                        common = set(snap) & set(model[slot])
+                    for k in set(snap) - set(model[slot]):
+                        model[slot][k] = snap[k]  # first full observation of a field
+                    common.discard("cachecheck")
+                    if any(snap.get(k) != model[slot].get(k) for k in common) and slot not in reported:
                         reported.add(slot)
-                        fields = sorted(k for k in set(snap) | set(model[slot]) if snap.get(k) != model[slot].get(k))
+                        fields = sorted(k for k in common if snap.get(k) != model[slot].get(k))
                         v = {
                             "clause": "M1-input-mutated" if "items" not in snap else "M2-metadata-dict-mutated",
                             "unit": ui,
